@@ -116,8 +116,8 @@ def check(ctx: Ctx) -> str:
     # any normalisation applied first makes distinct sources share a checksum, and stale
     # bytecode is accepted for an edited template
     rebinds = [a for a in ast.walk(gs.node) if isinstance(a, (ast.Assign, ast.AugAssign, ast.AnnAssign)) and any(isinstance(t_, ast.Name) and t_.id == "source" for t_ in (a.targets if isinstance(a, ast.Assign) else [a.target]))]
-    hashed = [c.args[0] for c in astq.calls(gs.node) if astq.callee(c) in ("sha1", "hashlib.sha1", "sha256", "hashlib.sha256") and c.args]
-    hashed += [c.args[0] for c in astq.calls(gs.node) if astq.attr_tail(c) == "update" and c.args]
+    hashed = [c.args[0] for c in astq.calls(gs.nnode) if astq.callee(c) in ("sha1", "hashlib.sha1", "sha256", "hashlib.sha256") and c.args]  # a local naming the encoded text is inlined
+    hashed += [c.args[0] for c in astq.calls(gs.nnode) if astq.attr_tail(c) == "update" and c.args]
     exact = bool(hashed) and all(isinstance(h, ast.Call) and isinstance(h.func, ast.Attribute) and h.func.attr == "encode" and isinstance(h.func.value, ast.Name) and h.func.value.id == "source" for h in hashed)
     ctx.check(exact and not rebinds, "checksum:exact-source", "bccache:BytecodeCache.get_source_checksum", f"digest input {[ast.unparse(h) for h in hashed]}, source rebound {len(rebinds)}x",
               f"the checksum must hash the unmodified source (`source.encode(...)`); found digest inputs {[ast.unparse(h) for h in hashed]} and {len(rebinds)} rebinding(s) of `source` ({[ast.unparse(r)[:60] for r in rebinds]}): sources that differ only in what the normalisation removes share a checksum, so the bytecode of the old source is loaded for the new one",
@@ -130,11 +130,23 @@ def check(ctx: Ctx) -> str:
     db = repo.func("bccache:FileSystemBytecodeCache.dump_bytecode")
     tf = [c for c in astq.calls(db.node) if astq.callee(c).endswith("NamedTemporaryFile")]
     ctx.need(len(tf) == 1, "dump_bytecode no longer creates a NamedTemporaryFile")
-    kw = {k.arg: ast.unparse(k.value) for k in tf[0].keywords}
-    ctx.check(kw.get("dir") == "os.path.dirname(name)" and kw.get("delete") == "False", "tmp:dir", "bccache:FileSystemBytecodeCache.dump_bytecode", "temp file placement",
+    # the final file name is the local bound to self._get_cache_filename(bucket) (any name);
+    # locals that only name os.path.dirname / basename of it are looked through
+    fin = [a for a in ast.walk(db.node) if isinstance(a, ast.Assign) and ast.unparse(a.value) == "self._get_cache_filename(bucket)" and isinstance(a.targets[0], ast.Name)]
+    fname = fin[0].targets[0].id if len(fin) == 1 else "name"  # type: ignore[attr-defined]
+
+    def _thru(e: ast.AST) -> str:
+        if isinstance(e, ast.Name) and e.id != fname:
+            src_ = [a for a in ast.walk(db.node) if isinstance(a, ast.Assign) and len(a.targets) == 1 and isinstance(a.targets[0], ast.Name) and a.targets[0].id == e.id]
+            if len(src_) == 1:
+                return ast.unparse(src_[0].value)
+        return ast.unparse(e)
+
+    kw = {k.arg: _thru(k.value) for k in tf[0].keywords}
+    ctx.check(kw.get("dir") == f"os.path.dirname({fname})" and kw.get("delete") == "False", "tmp:dir", "bccache:FileSystemBytecodeCache.dump_bytecode", "temp file placement",
               f"the temp file must be created in the cache directory with delete=False (got dir={kw.get('dir')}, delete={kw.get('delete')}): os.replace across file systems is not atomic", db.loc(tf[0]), detail=kw)
     rep = [c for c in astq.calls(db.node) if astq.callee(c) in ("os.replace", "os.rename")]
-    ctx.check(len(rep) == 1 and astq.callee(rep[0]) == "os.replace" and [ast.unparse(a) for a in rep[0].args] == ["f.name", "name"], "replace", "bccache:FileSystemBytecodeCache.dump_bytecode", "atomic publish",
+    ctx.check(len(rep) == 1 and astq.callee(rep[0]) == "os.replace" and [ast.unparse(a) for a in rep[0].args] == ["f.name", fname], "replace", "bccache:FileSystemBytecodeCache.dump_bytecode", "atomic publish",
               "the entry must be published with os.replace(f.name, name)", db.loc())
     trys = [n for n in ast.walk(db.node) if isinstance(n, ast.Try) and astq.enclosing_qual(n).endswith("dump_bytecode")]
     ctx.floor("try statements in dump_bytecode", len(trys), 2)
